@@ -1,4 +1,11 @@
-from asyncio import AbstractEventLoop, Future, Task, TimerHandle, get_running_loop
+from asyncio import (
+    AbstractEventLoop,
+    CancelledError,
+    Future,
+    Task,
+    TimerHandle,
+    get_running_loop,
+)
 from collections.abc import Callable, Coroutine
 
 from haiway.utils.mimic import mimic_function
@@ -97,7 +104,10 @@ class _AsyncTimeout[**Args, Result]:
             try:
                 future.set_result(task.result())
 
-            except Exception as exc:
+            except CancelledError:
+                future.cancel()  # function ended cancelled - propagate cancellation to the caller
+
+            except BaseException as exc:
                 future.set_exception(exc)
 
         task.add_done_callback(on_completion)
